@@ -529,13 +529,18 @@ func inURLParse(fr *frame, args []value) value {
 		}
 		// light consistency axioms so that models replay against the real parser
 		sch := "(url_scheme " + s.e + ")"
+		_, schKnown := pc.constOf(sch)
 		ax := "(or (= " + sch + " \"\") (and (str.prefixof (str.++ " + sch + " \":\") " + s.e + ") (str.in_re " + sch + " (re.+ (re.range \"a\" \"z\")))))"
-		if !pc.known[ax] {
+		if !pc.known[ax] && !schKnown {
 			pc.assertTerm(ax)
 		}
 		st := i.urlStruct()
 		v := zero(st).(structure)
-		v[i.fieldIndex(st, "Scheme")] = &sym{s: sStr, e: sch}
+		if c, ok := pc.constOf(sch); ok {
+			v[i.fieldIndex(st, "Scheme")] = c
+		} else {
+			v[i.fieldIndex(st, "Scheme")] = &sym{s: sStr, e: sch}
+		}
 		v[i.fieldIndex(st, "Host")] = &sym{s: sStr, e: "(url_host " + s.e + ")"}
 		v[i.fieldIndex(st, "Opaque")] = urlMarker
 		v[i.fieldIndex(st, "Path")] = &sym{s: sStr, e: "(url_norm " + s.e + ")"}
